@@ -25,7 +25,7 @@ TRUSTED, not proved: `HalfAddLaws` for IEEE `f32`/`f64` on `ok := moderate` (not
 `0 ≤ v ≤ 2^(bias/2)`) — sampled by `kodama-laws` (`check_HalfAddLaws_*`), no counterexample; see the
 header of `Props/C01Weighted.lean`.  PROVED for exact arithmetic (`halfAddLaws_of_fieldLaws`).
 
-NOT proved: the same for Ward on floats (not reducible under rounding).
+Ward (reducible since the second `fix:` commit of the crate, from `OrderLaws` alone): `Props/C12Ward.lean`.
 -/
 import Kodama.Props.C12
 import Kodama.Props.C01Weighted
